@@ -15,6 +15,7 @@ CONSTANTS
   SignalOnInsert = TRUE
   FirstSighting = TRUE
   SeedAtomic = TRUE
+  RegisterInThunk = TRUE
 INVARIANTS TypeOK MutexOK P_C18_WakePending
 PROPERTIES P_C18_NoLostWake P_C18_CancelReturns P_C18_PullReturns
 CHECK_DEADLOCK FALSE
